@@ -110,7 +110,8 @@ func (c *Ctx) smtp() *smtpModel {
 				switch eng.CalleeName(x.Common()) {
 				case "(*net/textproto.Writer).PrintfLine":
 					isS = true
-				case "(*net/textproto.Reader).ReadLine":
+				case "(*net/textproto.Reader).ReadLine", "(*net/textproto.Reader).ReadLineBytes",
+					"(*bufio.Reader).ReadLine", "(*bufio.Reader).ReadString", "(*bufio.Reader).ReadBytes", "(*bufio.Reader).ReadSlice":
 					isRL = true
 				case "(*net/textproto.Reader).ReadDotBytes", "(*net/textproto.Reader).DotReader":
 					isDR = true
@@ -140,7 +141,7 @@ func (c *Ctx) smtp() *smtpModel {
 	m.send = one("reply writer (calls textproto PrintfLine)", senders)
 	m.reset = one("envelope reset (stores nil to Session.from / Session.recipients)", resets)
 	m.newSession = one("session allocation", allocs)
-	m.readLine = one("command line read (textproto ReadLine)", rl)
+	m.readLine = one("command line read (a line-reading call of textproto.Reader or bufio.Reader)", rl)
 	m.dataRead = one("DATA read (textproto ReadDotBytes/DotReader)", dr)
 	if m.stateWriter == nil || m.send == nil || m.reset == nil || m.newSession == nil || m.readLine == nil || m.dataRead == nil {
 		return m
